@@ -118,6 +118,17 @@ func TestC12Worker(t *testing.T) {
 	if os.Getenv("VERIF_C12_WORKER") != "1" {
 		t.Skip("worker mode only")
 	}
+	// a worker that spins on a non-terminating input must not outlive a test
+	// process that the driver had to kill: it ends when it is orphaned
+	parent := os.Getppid()
+	go func() {
+		for {
+			time.Sleep(2 * time.Second)
+			if os.Getppid() != parent {
+				os.Exit(3)
+			}
+		}
+	}()
 	in := bufio.NewReaderSize(os.Stdin, 1<<20)
 	out := bufio.NewWriter(os.Stdout)
 	for {
